@@ -917,7 +917,7 @@ def run(chk):
     chk.assumptions = ["sort inputs are null (or read as 0) when connected, as breakdown.tri is",
                        "values compared as int64_t; null and double inputs read as 0 (sort_cb_input)",
                        "each CPU channel is written at most once per event"]
-    proved = chk.translate_and_prove(["cmp_sortmod", "sortc", "tables", "pv", "connect"])
+    proved = chk.translate_and_prove(["cmp_sortmod", "sortc", "tables", "pv", "connect", "bayc", "muxc"])
 
     build = common.repo_build("hook")
     hdir = os.path.join(common.BUILD, "harness")
